@@ -68,6 +68,14 @@ NoMem == [h |-> -1, tip |-> -1, txc |-> 0, uc |-> 0, fc |-> 0]
 HeightOfNum(cnts, n) == Cardinality({ k \in 1..Len(cnts) : cnts[k] <= n })
 Overwrite(f, off, data) == SubSeq(f, 1, Min2(off, Len(f))) \o data   \* write at offset (append-only files)
 Ev(e) == evs' = IF Export THEN Append(evs, e) ELSE evs
+(* cheap scalars of the process state, exported with the events that the real run can observe at the same instant
+   (right after advance_block / on_caught_up / backup_block return): implementation-level conformance of the replay *)
+SumSs(u) == LET RECURSIVE S(_)
+                S(k) == IF k = 0 THEN 0 ELSE Cardinality(u[k].ss) + S(k - 1)
+            IN S(Len(u))
+(* <<memh, txc, uc, nc, nd, nu, npu, hfc, dbh, fsh>> (a tuple: the exported histories stay small) *)
+Scal(m, c, d, u, pu, hf, dh, fs) ==
+  <<m.h, m.txc, m.uc, Cardinality(c), Cardinality(d), SumSs(u), Len(pu), hf, dh, fs>>
 
 Init ==
   /\ tree = [b \in {0} |-> [parent |-> -1, height |-> 0, txs |-> <<CB>>, cb |-> Funding]]
@@ -198,7 +206,8 @@ Advance ==
              /\ touched' = touched \cup UNION Range(acc.hx)
              /\ batch' = Tail(batch)
              /\ \E f \in FlushKinds :
-                  /\ Ev([e |-> "advance", b |-> b, flush |-> f])
+                  /\ Ev([e |-> "advance", b |-> b, flush |-> f,
+                         st |-> Scal(mem', acc.c, acc.d, unfl', pendUndo', hfc, dbst.h, fsH)])
                   /\ IF f = "none" THEN pc' = (IF Tail(batch) = <<>> THEN "poll" ELSE "adv") /\ UNCHANGED fl
                      ELSE pc' = "flush" /\ fl' = [kind |-> f, ret |-> IF Tail(batch) = <<>> THEN "poll" ELSE "adv"]
              /\ UNCHANGED <<fsH, dbst, hfc, reorgReq>>
@@ -375,7 +384,8 @@ ReorgBackup ==
                   /\ touched' = touched \cup acc.tch
                   /\ toUndo' = Front(toUndo)
                   /\ pc' = "bk_hist" /\ fsH' = h - 1          \* backup_fs: pointers only
-                  /\ Ev([e |-> "backup", b |-> b])
+                  \* (the real backup_block returns after flush_backup has committed: the scalars are those of that instant)
+                  /\ Ev([e |-> "backup", b |-> b, st |-> Scal(mem', {}, {}, unfl, <<>>, hfc + 1, h - 1, h - 1)])
                   /\ UNCHANGED <<unfl, pend, pendUndo, dbst, hfc, batch, reorgReq, lb, why, rgDepth>>
   /\ UNCHANGED <<daemonVars, cachedH, caughtUp, fl, durVars, commits, crashes, forced, restarts, fresh, shrunk, f7, f7hole, behind>>
 (* History.backup: truncate the rows of the touched scripts at tx_count, state in the batch *)
